@@ -924,14 +924,11 @@ impl ProtocolState {
             return;
         }
 
-        // zero out everyone
-        let operations : Vec<u64> = self.operations.keys().copied().collect();
-        for id in operations {
-            let operation = self.operations.get_mut(&id).unwrap();
-            operation.slow_start_ack_value = 0;
-        }
+        // Marks are never cleared here: an operation interrupted by an earlier disconnection that is still unresolved
+        // (waiting in the resubmit queue because a connection attempt failed, or because the connection closed again
+        // before it was re-sent) is still an interrupted operation.  A mark goes away with its operation.
 
-        // now mark all pending operations as part of slow start
+        // mark all pending operations as part of slow start
         // anything that completes before we reconect won't matter because we compute the
         // slow start sum at the moment we transition into the connected state
         let pending_non_publish_operations : Vec<u64> = self.pending_non_publish_operations.values().copied().collect();
